@@ -111,14 +111,16 @@ pub fn cluster_dump(c: &Cluster, i: usize) -> BTreeMap<String, BTreeMap<String, 
 
 pub fn render(cmd: &Cmd, uniq: &str, cur_ver: i32) -> String {
     match cmd {
-        Cmd::Set { k } => format!("set {} {}", k, if k == "n" { "10".to_string() } else { uniq.to_string() }),
+        // (key b: the value holds a CR in its middle; every node must store the same text)
+        Cmd::Set { k } => format!("set {} {}", k, if k == "n" { "10".to_string() } else if k == "b" { format!("{}\rmid", uniq) } else { uniq.to_string() }),
         Cmd::SetSafeFresh { k } => format!("set-safe {} {} {}", k, cur_ver.max(0), if k == "n" { "20".to_string() } else { uniq.to_string() }),
         Cmd::SetSafeStale { k } => format!("set-safe {} 0 {}", k, if k == "n" { "30".to_string() } else { uniq.to_string() }),
         Cmd::Remove { k } => format!("remove {}", k),
         Cmd::Inc { k, n } => format!("increment {} {}", k, n),
         Cmd::CreateDb { name } => format!("create-db {} tok-{}", name, name),
-        Cmd::CreateUser { name } => format!("create-user {} tok-{}", name, name),
-        Cmd::SetPermissions { name } => format!("set-permissions {} rw *", name),
+        Cmd::CreateUser { name } => format!("create-user {} tok-{}{}", name, if name == "u2" { "\r" } else { "" }, name),
+        // (u2: a list with an entry that names no pattern)
+        Cmd::SetPermissions { name } => format!("set-permissions {} {}", name, if name == "u2" { "rw a*|r" } else { "rw *" }),
         Cmd::Snapshot { reclaim } => format!("snapshot {}", reclaim),
         Cmd::ForceElection => "debug force-election".to_string(),
     }
